@@ -5,7 +5,7 @@
    structs is what made the first version of these obligations take minutes).  get_string (interning) and word_if_known are
    used through their contracts restricted to this word universe; any other word fails an assertion. */
 #include "svmodel.h"
-static void* zalloc(unsigned long n) { void* p = malloc(n); __CPROVER_assume(p != 0); __builtin_memset(p, 0, n); return p; }
+static void* zalloc(unsigned long n) { return __CPROVER_allocate(n, 1); }      /* fresh zero-initialised object at a constant address */
 #define NEWZ(T) ((T*)zalloc(sizeof(T)))
 typedef struct S_ZTSN3ipr4impl12name_factoryE nfactory_t; typedef struct S_ZTSN3ipr4impl12expr_factoryE efactory_t;
 typedef struct S_ZTSN3ipr4TypeE type_t; typedef struct S_ZTSN3ipr4ExprE expr_t; typedef struct S_ZTSN3ipr4NameE name_t;
@@ -49,7 +49,7 @@ string_t* @{virt:unary_string_operand}(struct S_ZTSN3ipr11Basic_unaryIRKNS_6Stri
 { for (int i = 0; i < NPOOL; i++) if ((void*)self == (void*)&ID[i]->__b0.__b1) return (i & 1) ? S5 : S4; __CPROVER_assert(0, "operand() of an unknown identifier / logogram"); return 0; }
 static void pools(void)
 {
-  FAC = malloc(sizeof *FAC); __CPROVER_assume(FAC != 0);
+  FAC = __CPROVER_allocate(sizeof *FAC, 0);      /* arbitrary contents (any prior state of the tables), constant address */
   NFAC = &FAC->__b0;                                                        /* expr_factory : name_factory */
   R0 = &WORDS[RW_INDEX];
   __CPROVER_assert(spelled(R0, sp_rw, sizeof sp_rw), "the reserved word of this run is at the index read from the table");
